@@ -237,7 +237,7 @@ def cat_tree(  # pylint: disable=too-many-arguments
         )
         translate = not no_move
 
-    names = get_names(names)
+    names = get_names(names) if names is not None else tree1.names
     tree, tree2 = tree1.copy(), tree2.copy()
     if not tree2.node(node2).is_root():
         tree2 = redirect_tree(tree2, node2, sort=False)
